@@ -467,15 +467,16 @@ where
     let span = tracing::info_span!("par_rcb_split");
     let _enter = span.enter();
 
-    let mut prev_count_left = usize::MAX;
     loop {
         let split_target = (min + max) / 2.0;
+        // Whether the search interval cannot be narrowed anymore.
+        let exhausted = !(min < split_target && split_target < max);
 
         // count_left: the number of points that are on the left of split_target
         // weight_left: the weight of all those points
         // nearest_idx: the index in `items` of the point that is 1/ on the
         //    right side of split_target and 2/ the nearest to split_target
-        let (count_left, weight_left, nearest_idx, nearest_distance) = items.points[coord]
+        let (_count_left, weight_left, nearest_idx, nearest_distance) = items.points[coord]
             .par_iter()
             .with_min_len(4096)
             .zip(&*items.weights)
@@ -525,7 +526,7 @@ where
             // of the split_target.  This is the case when min and max are set
             // too loosely, so we let it happen once. If this happens twice,
             // then `prev_count_left` will be the equal to `count_left`.
-            None if prev_count_left == count_left => {
+            None if exhausted => {
                 return SplitResult {
                     left: items,
                     right: Items {
@@ -539,7 +540,6 @@ where
             }
             None => {
                 max = split_target;
-                prev_count_left = count_left;
                 continue;
             }
         };
@@ -549,8 +549,10 @@ where
             let weight_left = weight_left.to_f64().unwrap();
             f64::abs((weight_left - ideal_weight_left) / ideal_weight_left)
         };
-        if count_left == prev_count_left // there is no point between min and max
-            || max <= split_target + nearest_distance // or between split_target and max
+        let weight_right = sum - weight_left;
+        if exhausted
+            // there is no point between split_target and max, where the cut should move to
+            || (weight_left < weight_right && max <= split_target + nearest_distance)
             || imbalance <= tolerance
         {
             let (left, right) = reorder_split(items, nearest_idx, coord);
@@ -561,9 +563,6 @@ where
                 split_pos: split_target,
             };
         }
-        prev_count_left = count_left;
-
-        let weight_right = sum - weight_left;
         if weight_left < weight_right {
             min = split_target;
         } else {
